@@ -365,6 +365,15 @@ static CACHED_ENV_VARS: Lazy<HashSet<&'static OsStr>> = Lazy::new(|| {
         "CPLUS_INCLUDE_PATH",
         "OBJC_INCLUDE_PATH",
         "OBJCPLUS_INCLUDE_PATH",
+        // Everything `hash_key` factors into the result key must be part of
+        // this key as well: a preprocessor cache hit hands back a result key
+        // that was computed under the environment of an earlier request.
+        "MACOSX_DEPLOYMENT_TARGET",
+        "IPHONEOS_DEPLOYMENT_TARGET",
+        "TVOS_DEPLOYMENT_TARGET",
+        "WATCHOS_DEPLOYMENT_TARGET",
+        "SDKROOT",
+        "CCC_OVERRIDE_OPTIONS",
     ]
     .iter()
     .map(OsStr::new)
